@@ -1304,26 +1304,37 @@ impl LSMIterator for TransactionRangeIterator<'_> {
 			return self.seek_first();
 		}
 
-		// Direction change: backward → forward
+		// Direction change: backward → forward. Going backward, the source that
+		// is not current sits somewhere before the current key (or is exhausted),
+		// so neither its position nor `is_key_equal` says anything about what
+		// follows the current key. Re-position both sources on the first entry
+		// after the current key and merge from there.
 		if self.direction != MergeDirection::Forward {
 			self.direction = MergeDirection::Forward;
 			self.is_key_equal = false;
+			if self.current_source == CurrentSource::None {
+				return Ok(false);
+			}
+			let current = self.key().user_key().to_vec();
 
-			if !self.snapshot_iter.valid() || !self.ws_valid() {
-				self.seek_ws_first();
-			} else if self.current_source == CurrentSource::Snapshot {
-				self.advance_ws();
-			} else {
+			let mut encoded = current.clone();
+			encoded.extend_from_slice(&u64::MAX.to_be_bytes()); // max trailer
+			encoded.extend_from_slice(&u64::MAX.to_be_bytes()); // max timestamp
+			self.snapshot_iter.seek(&encoded)?;
+			if self.snapshot_iter.valid() && self.snapshot_iter.key().user_key() == current.as_slice()
+			{
 				self.snapshot_iter.next()?;
 			}
 
-			// Check if now at equal keys
-			if self.snapshot_iter.valid()
-				&& self.ws_valid()
-				&& self.snapshot_iter.key().user_key() == self.ws_key()
-			{
-				self.is_key_equal = true;
-			}
+			let pos =
+				self.write_set_entries.partition_point(|(k, _)| k.as_slice() <= current.as_slice());
+			self.ws_pos = if pos < self.write_set_entries.len() {
+				Some(pos)
+			} else {
+				None
+			};
+
+			return self.position_to_min();
 		}
 
 		// Advance CURRENT source (or both if is_key_equal)
@@ -1351,26 +1362,32 @@ impl LSMIterator for TransactionRangeIterator<'_> {
 			return self.seek_last();
 		}
 
-		// Direction change: forward → backward
+		// Direction change: forward → backward. Mirror image of `next`:
+		// re-position both sources on the last entry before the current key.
 		if self.direction != MergeDirection::Backward {
 			self.direction = MergeDirection::Backward;
 			self.is_key_equal = false;
+			if self.current_source == CurrentSource::None {
+				return Ok(false);
+			}
+			let current = self.key().user_key().to_vec();
 
-			if !self.snapshot_iter.valid() || !self.ws_valid() {
-				self.seek_ws_last();
-			} else if self.current_source == CurrentSource::Snapshot {
-				self.advance_ws();
-			} else {
+			let mut encoded = current.clone();
+			encoded.extend_from_slice(&u64::MAX.to_be_bytes()); // max trailer
+			encoded.extend_from_slice(&u64::MAX.to_be_bytes()); // max timestamp
+			if self.snapshot_iter.seek(&encoded)? {
+				// first entry >= current: the one before it is the last < current
 				self.snapshot_iter.prev()?;
+			} else {
+				// nothing >= current: everything is before it
+				self.snapshot_iter.seek_last()?;
 			}
 
-			// Check if now at equal keys
-			if self.snapshot_iter.valid()
-				&& self.ws_valid()
-				&& self.snapshot_iter.key().user_key() == self.ws_key()
-			{
-				self.is_key_equal = true;
-			}
+			let pos =
+				self.write_set_entries.partition_point(|(k, _)| k.as_slice() < current.as_slice());
+			self.ws_pos = pos.checked_sub(1);
+
+			return self.position_to_max();
 		}
 
 		// Advance CURRENT source (or both if is_key_equal)
